@@ -119,6 +119,11 @@ theorem stuck_done (cfg : Cfg) (s : St) (hi : Inv cfg s) (hc : s.ctx.isSome = tr
 @[simp] theorem finish_result (cfg : Cfg) (s : St) (r : Result) : (finish cfg s r).result = r := by
   unfold finish; split <;> rfl
 
+@[simp] theorem finishBody_result (cfg : Cfg) (s : St) (r : Result) : (finishBody cfg s r).result = r := by
+  unfold finishBody; split
+  · exact finish_result cfg s r
+  · rfl
+
 /-- once cancelled with `e`, a finished call reports an error that identifies `e` -/
 def PostOK (e : CtxErr) (s : St) : Prop := s.phase = .done → s.result.identifies e = true
 
